@@ -51,6 +51,7 @@ def program_source(nodes: List[Dict[str, Any]], task_deps: List[Any], task: Dict
     if task.get("box"):
         L.append("class Box(pydantic.BaseModel):\n    items: typing.List[int]\n\n    @pydantic.model_validator(mode='before')\n    @classmethod\n"
                  "    def _short_form(cls, v):\n        if isinstance(v, str):\n            return {'items': [int(x) for x in v.split(',')]}\n        return v")
+    L.append("def whoami(ctx: Context = TaskiqDepends()):\n    return ctx.message.task_id")
     for i, nd in enumerate(nodes):
         L.append(node_source(i, nd))
     for ri, rep in enumerate(task.get("replacements") or []):
@@ -62,6 +63,9 @@ def program_source(nodes: List[Dict[str, Any]], task_deps: List[Any], task: Dict
         # an annotated parameter whose conversion builds a MUTABLE object from a scalar wire value ('1,2' -> model with a list):
         # every execution must get an object of its own
         params.append("box: Box = None")
+    if task.get("who_dep"):
+        # a parameter normally filled by a (cached) dependency that reads the Context; a caller may pass it explicitly
+        params.append("who=TaskiqDepends(whoami)")
     if task.get("bag"):
         # an un-annotated parameter that receives a nested mutable value (a dict holding a list): nothing converts or copies it
         params.append("bag=None")
@@ -71,6 +75,7 @@ def program_source(nodes: List[Dict[str, Any]], task_deps: List[Any], task: Dict
             + ("        if me == 0 and 'X-Taskiq-requeue' not in ctx.message.labels:\n            LOG('requeue', 'task')\n            await ctx.requeue()\n"
                if task.get("requeue_first") and own_ctx else "")
             + ("        if box is not None:\n            box.items.append(me)\n" if task.get("box") else "")
+            + ("        LOG('who', 'task', who)\n" if task.get("who_dep") else "")
             + ("        if bag is not None:\n            bag['items'].append('x')\n" if task.get("bag") else "")
             + "        if slp:\n            await asyncio.sleep(slp)\n"
             + ("        if bag is not None:\n            LOG('bag', 'task', list(bag['items']))\n" if task.get("bag") else "")
